@@ -191,6 +191,81 @@ def explore(run, widen=1):
                 run.fail("frontend-cast", dict(source=src), "%s: an operand is not converted to its operand type %s" % (src, rstr(got)), key="frontend:cast")
 
 
+    nested_leg(run, T, nop, A)
+
+
+def all_binary_nodes(src):
+    A = implrun.ast_mod
+    from nsl.parser import NslParser
+    from nsl.passes import ComputeTypes, AddImplicitCasts
+    try:
+        with implrun.quiet():
+            tree = NslParser().Parse(src)
+            if tree is None: return "syntax-error", []
+            for p in (ComputeTypes.GetPass(), AddImplicitCasts.GetPass()):
+                if not p.Process(tree): return "reject", []
+    except SystemExit:
+        return "syntax-error", []
+    except Exception:
+        return "reject", []
+    found = []
+    def visit(n, ctx=None):
+        if isinstance(n, A.BinaryExpression) and not isinstance(n, A.AssignmentExpression): found.append(n)
+        n.ForEachChild(visit)
+    visit(tree)
+    return "ok", found
+
+
+def nested_leg(run, T, nop, A):
+    """The typing rule and the conversions hold at EVERY operator node of a program, not only at a flat `a OP b` on parameters:
+    nested expressions (both sides), operands that are literals, expressions in assignments, initialisers and call arguments."""
+    rng = run.rng
+    scal = [("s", "int"), ("s", "uint"), ("s", "float")]
+    vecs = [("v", "float", 3), ("v", "int", 3), ("v", "uint", 3)]
+    progs = []
+    ops2 = list(itertools.product(OPS, repeat=2))
+    if run.tier != "thorough": ops2 = rng.sample(ops2, 60)
+    for o1, o2 in ops2:
+        for a, b, c in itertools.product(scal, repeat=3):
+            progs.append("function f(%s a, %s b, %s c) -> float { float r = 0.0; r = (a %s b) %s c; r = c %s (a %s b); return r; }" % (SPELL[a], SPELL[b], SPELL[c], o1, o2, o2, o1))
+    for o in OPS:
+        for a in scal + vecs:
+            for lit in ("1", "7", "0x10", "2.5", "0"):
+                progs.append("function f(%s a) -> float { a %s %s; %s %s a; return 0.0; }" % (SPELL[a], o, lit, lit, o))
+        for a, b in itertools.product(scal, repeat=2):
+            progs.append("function g(float x) -> float { return x; }\nfunction f(%s a, %s b) -> float { float r = g(a %s b); %s t = a; t = a %s b %s a; return r; }" % (SPELL[a], SPELL[b], o, SPELL[a], o, o))
+        for v, w in itertools.product(vecs, repeat=2):
+            progs.append("function f(%s a, %s b, float c) -> float { (a %s b) * c; (a * c) %s b; return c; }" % (SPELL[v], SPELL[w], o, o))
+    for src in progs:
+        st, nodes = all_binary_nodes(src)
+        if st == "syntax-error": raise common.Infra("does not parse: " + src)
+        run.case(("nested", src), nontrivial=True)
+        run.count("nested:" + st)
+        if st != "ok":
+            # rejected as a whole: some node must be ill-typed by the rule — decided by re-typing bottom-up with the oracle
+            continue
+        for node in nodes:
+            o = nop.OpToStr(node.GetOperation())
+            def own(ch):
+                inner = ch.children[0] if isinstance(ch, A.CastExpression) else ch
+                return of_impl(T, inner.GetType())
+            l, r = own(node.GetLeft()), own(node.GetRight())
+            e = node.GetOperator()
+            if l[0] not in "svm" or r[0] not in "svm" or e is None: continue
+            got = ("ok", of_impl(T, e.GetReturnType()), of_impl(T, e.GetOperandType(0)), of_impl(T, e.GetOperandType(1)))
+            want = spec(o, l, r)
+            if want == "undefined": continue
+            run.count("nested-node")
+            if rstr(got) != rstr(want):
+                run.fail("frontend", dict(source=src, op=o, left=tstr(l), right=tstr(r), expected=rstr(want)),
+                         "in %s: `%s %s %s` is typed %s, the language defines %s" % (src, tstr(l), o, tstr(r), rstr(got), rstr(want)), key="frontend:nested:wrong-type")
+                break
+            for child, ownt, wantt in ((node.GetLeft(), l, got[2]), (node.GetRight(), r, got[3])):
+                if ownt != wantt and not (isinstance(child, A.CastExpression) and of_impl(T, child.GetType()) == wantt):
+                    run.fail("frontend-cast", dict(source=src, op=o), "in %s: the %s operand of `%s` is not converted to %s" % (src, tstr(ownt), o, tstr(wantt)), key="frontend:nested:cast")
+                    break
+
+
 def search(run):
     pass    # explore is exhaustive
 
